@@ -23,6 +23,7 @@ Inductive item16 :=
 | Block (k : ekind) (ib ie : string) (body : list uline)     (* ib / ie : what precedes the begin / end tag on its line (indentation) *)
 | SigBlock (ib ie : string) (body : list uline)
 | TransBlock (ib ie : string) (body : list titem)             (* per state > per event > per transition, nested *)
+| InitLine (l : uline)                    (* a line outside blocks that mentions the initial state: <<<STATE_0>>> / <<<state_0>>> *)
 with titem :=
 | TLine (l : uline)                                           (* a line of the per-state block *)
 | TEvent (ib ie : string) (body : list eitem)                 (* a per-event block inside it *)
@@ -59,6 +60,7 @@ Definition render_item16 (it : item16) : list string :=
   | SigBlock ib ie body => (ib ++ begin_line "PER_ACTION_SIGNATURE")%string :: map render_line body ++ [(ie ++ end_line "PER_ACTION_SIGNATURE")%string]
   | TransBlock ib ie body =>
       (ib ++ begin_line "PER_STATETRANSITION")%string :: flat_map render_titem body ++ [(ie ++ end_line "PER_STATETRANSITION")%string]
+  | InitLine l => [render_line l]
   end.
 Definition render16 (t : template16) : list string := flat_map render_item16 t.
 
@@ -103,7 +105,9 @@ Record elements := {
   el_structs : list string; el_protos : list string; el_msgs : list string;
   (* per state (sources first, then the states that are only targets), per event of the state, the transitions in table
      order; a transition is the table of the name tags it defines *)
-  el_tps : list (string * list (string * list (list (string * string)))) }.
+  el_tps : list (string * list (string * list (list (string * string))));
+  (* the initial state: the start state of the first row *)
+  el_first : string }.
 
 Fixpoint add_missing (l extra : list string) : list string :=
   match extra with
@@ -132,7 +136,7 @@ Definition tps_of (t : table) : list (string * list (string * list (list (string
 Definition elements_of (t : table) (structs protos msgs : list string) : elements :=
   {| el_states := TTable.states t; el_events := add_missing (TTable.events t) structs;
      el_actions := TTable.actions t; el_guards := TTable.guards t; el_sigs := TTable.actionsignatures t;
-     el_structs := structs; el_protos := protos; el_msgs := msgs; el_tps := tps_of t |}.
+     el_structs := structs; el_protos := protos; el_msgs := msgs; el_tps := tps_of t; el_first := TTable.getfirststate t |}.
 
 Definition items_of (e : elements) (k : ekind) : list string :=
   match k with
@@ -143,6 +147,8 @@ Definition table_of_kind (k : ekind) : string -> nat -> list (string * string) :
   match k with KStruct | KProto | KMsg => proto_table | _ => elem_table end.
 
 (* ---------------------------------------------------------------- nested transition blocks *)
+(* filterInitialState: the two spellings of the initial state's name *)
+Definition init_table (first : string) : list (string * string) := [("STATE_0", first); ("state_0", camel first)].
 Definition state_table (s : string) : list (string * string) := family "STATENAME" "stateName" "STATE_NAME" s.
 Definition event_table (ev : string) : list (string * string) := family "EVENTNAME" "eventName" "EVENT_NAME" ev.
 
@@ -190,6 +196,7 @@ Definition ref_item16 (e : elements) (it : item16) : list string :=
   | Block k _ _ body => ref_block (table_of_kind k) (items_of e k) body
   | SigBlock _ _ body => ref_block sig_table (el_sigs e) body
   | TransBlock _ _ body => ref_trans (el_tps e) body
+  | InitLine l => [render_line (map (subst16 (init_table (el_first e))) l)]
   end.
 
 (* the generated file: TAB normalised to four spaces *)
